@@ -1040,6 +1040,63 @@ func (a *cbAnalysis) run(body *ast.BlockStmt, argsObj types.Object, extraEntry [
 		}
 		return true
 	})
+	// pass 3b: a definite decision read off an operation result by identity — OP(x, …) == cty.True / cty.False. The
+	// comparison does not panic on an unknown result, it is simply false, so "not found" / "not equal" is concluded
+	// for an operand that is not known yet: the operands must be established known like the receiver of True().
+	inspectNoLit(body, func(n ast.Node) bool {
+		be, ok := n.(*ast.BinaryExpr)
+		if !ok || (be.Op != token.EQL && be.Op != token.NEQ) {
+			return true
+		}
+		var opCall *ast.CallExpr
+		for _, pair := range [][2]ast.Expr{{be.X, be.Y}, {be.Y, be.X}} {
+			if isPkgVar(info, pair[1], "cty", "True", "False") {
+				if cl, ok := ast.Unparen(pair[0]).(*ast.CallExpr); ok && opOperands(info, cl) != nil {
+					opCall = cl
+				}
+			}
+		}
+		if opCall == nil {
+			return true
+		}
+		acc := strings.TrimPrefix(funcKey(callee(info, opCall)), "cty.Value.")
+		for _, oe := range opOperands(info, opCall) {
+			sk := subjKey(info, oe)
+			desc, isRooted := rooted[sk]
+			if sk == "" || !isRooted || isOpResult[sk] {
+				continue
+			}
+			_, isElem := elemLinks[sk]
+			wr := worldsFor(sk, "known")
+			construct := fmt.Sprintf("%s.%s/%s(%s)==True|False/known", a.spec.Pkg, where, acc, displaySubj(sk))
+			if a.c.IsControl(be.Pos()) {
+				construct = "control/" + construct
+			}
+			good, bad := Fact{"known", sk}, Fact{"unknown", sk}
+			holds, reachable := wr.Established(be, good)
+			ob := stdObl{Bit: "known", Construct: construct, Pos: be.Pos(), Elem: isElem, Mode: a.mode}
+			switch {
+			case !reachable:
+				ob.Status, ob.Detail = "discharged", "unreachable under the declared parameter contract"
+			case holds:
+				ob.Status, ob.Detail = "discharged", fmt.Sprintf("known established for %s on every path (%s)", desc, wr.Describe(be, sk))
+			default:
+				at, _, _ := factAtom(good)
+				if _, tracked := wr.idx[at]; !tracked {
+					ob.Status, ob.Detail = "assumed", "state atom not tracked (too many predicates in this function)"
+				} else if flag := correlatedFlag(a.c, info, body, be); flag != "" && wr.Possible(be, bad) {
+					ob.Status, ob.Detail = "assumed", fmt.Sprintf("the comparison is guarded by the exit 'if %s' whose flag is set under a state predicate earlier in the function (universal-flag idiom): correlated state the engine does not model", flag)
+				} else if wr.Possible(be, bad) {
+					ob.Status = "violation"
+					ob.Detail = fmt.Sprintf("the result of %s() is compared with cty.True / cty.False by identity while %s may be unknown here (%s): for an unknown operand the result is unknown and the comparison is simply false, so the branch taken concludes 'absent' / 'different' for a value that is not known yet, and a definite answer is returned where only an unknown one is justified; states reaching the comparison: %s", acc, desc, whyAdmitted(a.spec, desc, "known", isElem, a.mode), wr.Describe(be, sk))
+				} else {
+					ob.Status, ob.Detail = "discharged", "bad state excluded"
+				}
+			}
+			a.res.Obls = append(a.res.Obls, ob)
+		}
+		return true
+	})
 }
 
 // declaredKind: the kind a Parameter's Type expression guarantees ("" = any type / not evident).
